@@ -58,6 +58,29 @@ theorem wheel_hold_ok (now n seq D N : Nat) (h : Hold) (hk : h.cmd.key = n)
     have e := (ha.2.2.2 (hD hn)).1
     omega
 
+/-- the same for a check time of `now` or `now + 1` (inside a tick the timeout sweep runs, and since the C04 fix may
+grant from its wake passes, while the expiry check time is still the old one) -/
+theorem wheel_hold_ok' (now check n seq D N : Nat) (h : Hold) (hk : h.cmd.key = n)
+    (he : h.expT = (wheelAdd check seq D N).1) (hs : h.sched = (wheelAdd check seq D N).2)
+    (hc1 : now ≤ check) (hc2 : check ≤ now + 1)
+    (hD : now < INF_TIME → now + 1 ≤ D) : HOKs now n h ∧ check ≤ h.sched.visit ∧ SOK now h := by
+  have ha := wheelAdd_all check seq D N
+  rw [← he, ← hs] at ha
+  refine ⟨⟨hk, ha.2.1, fun hl => by have := ha.2.2.1 hl; omega, ?_⟩, ha.1, ?_⟩
+  · intro hn _
+    have := (ha.2.2.2 (by have := hD hn; omega)).2
+    have e := (ha.2.2.2 (by have := hD hn; omega)).1
+    omega
+  · intro hn
+    have := (ha.2.2.2 (by have := hD hn; omega)).2
+    have e := (ha.2.2.2 (by have := hD hn; omega)).1
+    omega
+
+theorem grantedHold_ok' (d : DB) (c : Cmd) (hc1 : d.now ≤ d.eCheck) (hc2 : d.eCheck ≤ d.now + 1) :
+    HOKs d.now c.key (grantedHold d c) ∧ d.eCheck ≤ (grantedHold d c).sched.visit ∧ SOK d.now (grantedHold d c) :=
+  wheel_hold_ok' d.now d.eCheck c.key d.seq (expiryDeadline d.now c) (initChecked c d.now (expiryDeadline d.now c))
+    (grantedHold d c) rfl rfl rfl hc1 hc2 (expiryDeadline_ge _ _)
+
 theorem grantedHold_ok (d : DB) (c : Cmd) (he : d.eCheck = d.now + 1) :
     HOKs d.now c.key (grantedHold d c) ∧ d.now + 1 ≤ (grantedHold d c).sched.visit ∧ SOK d.now (grantedHold d c) := by
   apply wheel_hold_ok d.now c.key d.seq (expiryDeadline d.now c) (initChecked c d.now (expiryDeadline d.now c)) (grantedHold d c) rfl
@@ -311,14 +334,13 @@ theorem opLock_hu (db : DB) (c : Cmd) (h : HU db) : HU (opLock db c).1 := by
   | «show» cur | updateEqual h' | relockNoHold h' | relockRefused h' => exact h
   | update h' =>
     simp only [applyLock]
-    apply setKey_hu (h.of_keys_seq (updateHold_db_keys _ _ _) (updateHold_seq_le _ _ _))
-    exact (HUl.replace hk (updateHold_hid _ _ _)).mono (updateHold_seq_le _ _ _)
+    exact wake_store_hu _ h (updateHold_db_keys _ _ _) (updateHold_seq_le _ _ _)
+      ((HUl.replace hk (updateHold_hid _ _ _)).mono (updateHold_seq_le _ _ _))
   | relock h' =>
     simp only [applyLock]
-    apply setKey_hu
-    · exact h.of_keys_seq (by simp [updateHold_db_keys]) (updateHold_seq_le db { h' with depth := h'.depth + 1 } c)
-    · exact (HUl.replace hk (h := h') (updateHold_hid db { h' with depth := h'.depth + 1 } c)).mono
-        (updateHold_seq_le db { h' with depth := h'.depth + 1 } c)
+    exact wake_store_hu _ h (by simp [updateHold_db_keys]) (updateHold_seq_le db { h' with depth := h'.depth + 1 } c)
+      ((HUl.replace hk (h := h') (updateHold_hid db { h' with depth := h'.depth + 1 } c)).mono
+        (updateHold_seq_le db { h' with depth := h'.depth + 1 } c))
   | grant =>
     simp only [applyLock]
     have hg : HUl (grantHold db (db.getKey c.key) c).1.seq (grantHold db (db.getKey c.key) c).2.holders := by
@@ -344,7 +366,7 @@ theorem opUnlock_hu (db : DB) (c : Cmd) (h : HU db) : HU (opUnlock db c).1 := by
   | stateError | notLocked | unown | cancelNone => exact h.of_keys_seq rfl (Nat.le_refl _)
   | cancel w =>
     simp only [applyUnlock]
-    exact setKey_hu (h.of_keys_seq rfl (Nat.le_refl _)) hk
+    exact wake_store_hu _ h rfl (Nat.le_refl _) hk
   | dec h' c' =>
     simp only [applyUnlock]
     exact wake_store_hu _ h rfl (Nat.le_refl _) (HUl.replace hk (h := h') (h' := { h' with depth := h'.depth - 1 }) rfl)
@@ -354,7 +376,7 @@ theorem opUnlock_hu (db : DB) (c : Cmd) (h : HU db) : HU (opUnlock db c).1 := by
 
 theorem fireTimeout_hu (db : DB) (key : Nat) (w : Waiter) (h : HU db) : HU (fireTimeout db key w).1 := by
   unfold fireTimeout
-  exact setKey_hu (h.of_keys_seq rfl (Nat.le_refl _)) (getKey_hu h key)
+  exact wake_store_hu _ h rfl (Nat.le_refl _) (getKey_hu h key)
 
 theorem fireExpire_hu (db : DB) (key : Nat) (hd : Hold) (h : HU db) : HU (fireExpire db key hd).1 := by
   unfold fireExpire
